@@ -18,7 +18,8 @@ pub struct Ctx {
     pub clone_log: Vec<(u64, u64)>,           // (from serial, new serial)
     // ---- hash plan
     pub hashes: StdMap<u64, u64>,
-    pub hash_rule: u8, // 0 = mix, 1 = const 0, 2 = const max, 3 = call dependent, 4 = call dependent (near)
+    pub hash_rule: u8, // 0 = mix, 1 = const 0, 2 = const max, 3 = call dependent, 4 = call dependent (near), 5 = call dependent (window)
+    pub hash_window: (u64, u64), // rule 5: a fresh position in base .. base+width on every call, tag 0
     pub hash_calls: u64,
     pub hash_panic_key: Option<u64>,   // hashing this key id panics (while armed)
     pub hash_panic_nth: Option<u64>,   // the n-th hash call from now panics
@@ -36,6 +37,22 @@ pub struct Ctx {
     pub ev_log: Vec<(char, u64, u64, u64)>,    // ordered window log: ('A'|'F'|'R', size, align, 0) and ('K'|'V'|'T', serial, a, b) drops
     pub refuse_nth: Option<u64>,               // the n-th allocation request from now is refused
     pub alloc_errors: Vec<String>,
+    // ---- references handed out by the library that are not aligned for their type (C02)
+    pub misaligned_refs: Vec<String>,
+}
+
+/// Every reference to an instrumented object that the harness receives from the library goes through
+/// here (the accessor methods call it): a reference must be aligned for its type, also for zero-sized types.
+#[inline]
+pub fn chk_align<T>(r: &T, what: &'static str) {
+    let a = r as *const T as usize;
+    if a % std::mem::align_of::<T>() != 0 {
+        with_ctx(|c| {
+            if c.misaligned_refs.len() < 4 {
+                c.misaligned_refs.push(format!("misaligned reference {:#x} to a {} (size {}, align {})", a, what, std::mem::size_of::<T>(), std::mem::align_of::<T>()));
+            }
+        });
+    }
 }
 
 pub static CTX: Mutex<Option<Ctx>> = Mutex::new(None);
@@ -270,6 +287,9 @@ pub fn plan_hash(id: u64) -> u64 {
             // a different answer on every call, but always tag 0 and one of 8 neighbouring
             // positions: lookups under a "wrong" hash still find stored elements
             4 => mix64(id ^ c.hash_calls.wrapping_mul(0x1234_5678_9ABC_DEF1)) & 7,
+            // a different answer on every call inside a chosen window of positions (tag 0): elements
+            // re-hashed in place are sent to the same few buckets a new key was just offered
+            5 => c.hash_window.0 + mix64(id ^ c.hash_calls.wrapping_mul(0x1234_5678_9ABC_DEF1)) % c.hash_window.1.max(1),
             _ => match c.hashes.get(&id) {
                 Some(h) => *h,
                 None => mix64(id),
